@@ -168,9 +168,13 @@ type farm struct {
 	seq     int
 }
 
-func (p *pki) serverTLS(identity, ip string, minV, maxV uint16, clientAuth tls.ClientAuthType) *tls.Config {
+func (p *pki) serverTLS(identity, ip string, minV, maxV uint16, clientAuth tls.ClientAuthType, foreignClientCA ...bool) *tls.Config {
 	pool := x509.NewCertPool()
-	pool.AddCert(p.cca)
+	if len(foreignClientCA) > 0 && foreignClientCA[0] {
+		pool.AddCert(p.foreign) // the server names (and trusts) only a CA that did NOT issue the RA's client certificate
+	} else {
+		pool.AddCert(p.cca)
+	}
 	return &tls.Config{Certificates: []tls.Certificate{p.serverCert(identity, ip)}, MinVersion: minV, MaxVersion: maxV, ClientAuth: clientAuth, ClientCAs: pool, NextProtos: []string{"h2"}}
 }
 
